@@ -226,6 +226,17 @@ def tunnel_checks(ctx, rule):
                                   and p.retval[2][:1] == (data,) for p in rets)
     ctx.ob(rule, fe, through(pe, ("compress", "encode")) and through(pd, ("decompress", "decode")),
            "Compressed: every return of _encode/_decode is the codec's result on the data (no pass-through shortcut on one side only)", key="Compressed no shortcut")
+    lvl = N.selfattr("level")
+    def flat(p):
+        out = []
+        for g in p.guards():
+            out.extend(g[2] if g[0] == "bool" else (g,))
+        return out
+    with_level = [p for p in pe if p.returns and any(e.kind == "CALL" and e["func"][2] == "compress" and lvl in e["args"] for e in p.events)]
+    without = [p for p in pe if p.returns and any(e.kind == "CALL" and e["func"][2] == "compress" and lvl not in e["args"] for e in p.events)]
+    ok = bool(with_level) and bool(without) and all(N.mk_cmp("is not", lvl, N.NONE) in flat(p) for p in with_level) and \
+        all(N.mk_cmp("is", lvl, N.NONE) in flat(p) and not any(c == lvl or c == N.mk_not(lvl) for c in flat(p)) for p in without)
+    ctx.ob(rule, fe, ok, "Compressed hands the level to the codec whenever one was given (tested with `is None`, so level 0 = stored is honoured)", key="Compressed level")
     sel = lambda c: c[0] == "cmp" and c[1] in ("in", "not in") and c[2] == N.selfattr("encoding")
     gdd = {c for p in pd if p.returns and any(e.kind == "CALL" and e["func"][2] == "decompress" for e in p.events) for c in p.guards() if sel(c)}
     ge = {c for p in pe if p.returns and any(e.kind == "CALL" and e["func"][2] == "compress" for e in p.events) for c in p.guards() if sel(c)}
@@ -340,7 +351,7 @@ def run(ctx):
     short = [p for p in pe if p.returns and p.retval == N.const(b"")]
     ctx.ob("C01.R4", fe, all(N.mk_cmp("==", OBJ, N.const("")) in p.guards() for p in short), "the only build-side shortcut is the empty string (an encoded empty string may carry a BOM)", key="StringEncoded shortcut")
     tunnel_checks(ctx, "C01.R4")
-    ctx.floor("C01.R4", 17)
+    ctx.floor("C01.R4", 18)
 
     # ---------------------------------------------------------------- R5
     fi, paths = own_method_paths(ctx, "Rebuild", "_build")
@@ -422,14 +433,18 @@ def run(ctx):
     from .. import interval
     from . import C03, C08
     interval.leb128_obligations(ctx, "C01.R7")
+    from . import C10_helpers
+    C10_helpers.zigzag(ctx, "C01.R7")
     C03.unit_table_check(ctx, "C01.R7")
     fi, paths = own_method_paths(ctx, "NullTerminated", "_parse")
     C08.null_terminated(ctx, fi, paths, "C01.R7")
     fi, paths = own_method_paths(ctx, "NullStripped", "_parse")
     C08.null_stripped(ctx, fi, paths, "C01.R7")
+    from . import C07
+    C07.member_store_checks(ctx, "C01.R7")    # what a member parsed or built (derived members included) is visible to the members after it, in both directions
     from . import C13
     C13.flag_test(ctx, "C01.R7")          # FlagsEnum: a label is reported exactly when all bits of its mask are present (what _encode ORs back)
-    ctx.floor("C01.R7", 21)
+    ctx.floor("C01.R7", 23)
 
     # positive control: chain with a dropped swap in build
     ctl = control_model(
